@@ -161,6 +161,7 @@ func c13Flag(c *Ctx) {
 	}
 	_ = e
 	newFn := c.P.LookupFunc("", "", "New")
+	newScope := c.Scope(newFn) // New and the helpers split out of it (they run before the table exists)
 	for _, fn := range c.P.RepoFuncs(an.LibraryPkg) {
 		c.R.SawFunc(core.FuncName(fn))
 		for _, b := range fn.Blocks {
@@ -199,11 +200,11 @@ func c13Flag(c *Ctx) {
 						"S3Options.ReadOnly assigned "+st.Val.String()+": a read-only table could become writable")
 				case vtSO:
 					// whole-struct overwrite of a table's options
-					c.R.Cond(fn == newFn, rule, site, pos, "options assigned while the table is built",
+					c.R.Cond(newScope.Contains(fn), rule, site, pos, "options assigned while the table is built",
 						"VirtualTable.S3Options overwritten outside New: a refreshed table may lose readonly/prefix")
 				default:
 					// field store into VirtualTable.S3Options.<x> outside New
-					if inner, ok := fa.X.(*ssa.FieldAddr); ok && an.FieldVar(inner.X.Type(), inner.Field) == vtSO && fn != newFn {
+					if inner, ok := fa.X.(*ssa.FieldAddr); ok && an.FieldVar(inner.X.Type(), inner.Field) == vtSO && !newScope.Contains(fn) {
 						c.R.Bad(rule, site, pos, "a field of VirtualTable.S3Options is modified after the table was created")
 					}
 				}
